@@ -5,6 +5,7 @@ once; the rendezvous probe makes the real pool EXHIBIT the model's "N running" s
 Oracle on the implementation alone: every task body entered exactly once, every scenario
 (incl. N tasks blocking on a barrier of N) completes within 10 s."""
 from vlib import common as C
+from vlib import gen_c07 as G
 from props import pool_common as P
 
 DRIVERS = ['Pool']   # model driver files this check runs: scopes translator failures to the tables they (and the proofs) import
@@ -44,7 +45,23 @@ def gen(rng, tier):
         if kinds and 'b' not in kinds and rng.chance(1, 4):   # submitter pauses until the pool is idle
             kinds.insert(rng.below(len(kinds)), 'w')
         add(n, ''.join(kinds), rng.chance(4, 5))
+    # generator audit (vlib/gen_c07.py): pauses combined with rendezvous bursts, backlogs far beyond 4N, long
+    # per-worker histories, idle periods, N up to 64, panicking tasks in the mix; shuffled (the slow scripts must
+    # not share one harness batch) and spread evenly over the random scripts above
+    CLASS.clear()
+    extra = G.extras(rng, tier)
+    rng.shuffle(extra)
+    nfixed = nprobe + 64
+    base, lines = lines[nfixed:], lines[:nfixed]
+    tail = []
+    for cls, n, kinds, perturb in extra:
+        ln = P.scenario(n, kinds, rng.below(1 << 32), perturb)
+        CLASS[ln] = cls
+        tail.append(ln)
+    lines += G.interleave(base, tail)
     return lines, nprobe
+
+CLASS = {}   # scenario line -> audit class (for the counters of the evidence file)
 
 def run(res, tier, seed):
     rng = C.Rng(seed)
@@ -61,8 +78,13 @@ def run(res, tier, seed):
         res.count(f'N={n}')
         res.count('kind:' + ('rendezvous' if 'b' in kinds else 'long' if 'l' in kinds else 'empty' if not kinds else 'instant'))
         res.count('perturbed' if ln.endswith('perturb=1') else 'unperturbed')
-    res.rule = ('one case = one scenario (N in 1..8, 0..4N tasks of kinds instant/error/long/blocking-on-a-barrier-of-N, '
-                'optional submitter pause, seeded yields/sleeps at the four hook points) run on a fresh real ThreadPool; '
+        ntasks = sum(1 for c in kinds if c != 'w')
+        res.count('tasks: ' + ('<=4N' if ntasks <= 4 * n else '<=16N' if ntasks <= 16 * n else '>16N'))
+        if 'w' in kinds and 'b' in kinds: res.count('pause and rendezvous in one script')
+        if ln in CLASS: res.count('class:' + CLASS[ln])
+    res.rule = ('one case = one scenario (N in 1..8 and a few N in 9..64, 0..4N tasks - in the backlog / history classes up to '
+                'several thousand - of kinds instant/error/long/blocking-on-a-barrier-of-N/panicking, '
+                'submitter pauses (also between rendezvous rounds), seeded yields/sleeps at the four hook points) run on a fresh real ThreadPool; '
                 'its recorded event trace is replayed on the model; distinct = distinct (scenario, trace) pairs')
     ms = [int(P.fields(o).get('ms', 0)) for ln, o in zip(lines, impl) if o.startswith('N=') and 'b' in P.parse_scenario(ln)[1]]
     if ms: res.notes.append(f'rendezvous scenarios: {len(ms)}, slowest {max(ms)} ms (timeout 10000 ms)')
